@@ -592,3 +592,11 @@ func init() {
 	mut("C11", "ReadTime rejects timestamps above MaxInt64 although WriteTime writes them", true, "primitive-symmetry|(*types.Decoder).ReadTime",
 		Edit{"types/encoding.go", "\treturn time.Unix(int64(d.ReadUint64()), 0)", "\tsec := d.ReadUint64()\n\tif sec > 1<<63-1 {\n\t\td.SetErr(errors.New(\"timestamp overflows int64\"))\n\t\treturn time.Time{}\n\t}\n\treturn time.Unix(int64(sec), 0)"})
 }
+
+func init() {
+	mut("C13", "SufficientlyHeavierThan accepts equal weight", true, "heavier-strict|SufficientlyHeavierThan",
+		Edit{"consensus/state.go", "return s.TotalWork.Cmp(t.TotalWork.add(t.Difficulty.div64(5))) > 0", "return s.TotalWork.Cmp(t.TotalWork.add(t.Difficulty.div64(5))) >= 0"})
+	mut("C09", "DeepCopy hoists the per-resolution temporaries out of the loop", true, "copy-is-deep|(*types.V2Transaction).DeepCopy:per-iteration",
+		Edit{"types/types.go", "\t\t\tsp := *res\n", "\t\t\tsp = *res\n"},
+		Edit{"types/types.go", "\tc.FileContractResolutions = slices.Clone(c.FileContractResolutions)\n", "\tc.FileContractResolutions = slices.Clone(c.FileContractResolutions)\n\tvar sp V2StorageProof\n"})
+}
